@@ -8,15 +8,15 @@ Import ListNotations.
 Local Open Scope Z_scope.
 
 Section C11.
-(* package unicode / regexp/syntax: trusted, and checked on every run by the harness (every rune; the two parses) *)
+(* package unicode / regexp/syntax: trusted, and checked on every run (every rune; the parse of every table entry) *)
 Variable fold_rel : rune -> rune -> bool.      (* unicode.SimpleFold orbits: how regexp matches a FoldCase literal *)
-Variable pred_fn : pred_id -> rune -> bool.    (* unicode.IsUpper / unicode.IsLower *)
+Variable pred_fn : pred_id -> rune -> bool.    (* unicode.IsUpper, unicode.IsLower, ... *)
 Variable parses_to : bytes -> regex -> Prop.   (* syntax.Parse(s, syntax.Perl) = re *)
-Hypothesis parse_upper : forall re, parses_to pat_upper re ->
-  exists rg, re = Concat [BeginText; CharClass rg] /\ forall c, in_ranges rg c = pred_fn PredIsUpper c.
-Hypothesis parse_lower : forall re, parses_to pat_lower re ->
-  exists rg, re = Concat [BeginText; CharClass rg] /\ forall c, in_ranges rg c = pred_fn PredIsLower c.
-Hypothesis pred_error : forall p, pred_fn p rune_error = false.
+(* every entry of the REGENERATED table of prefix classes: the pattern string parses to `^` + one class, the class is what the
+   entry's predicate decides for all runes, and the predicate rejects the decoder's error value. Discharged for the
+   observed classes / predicates of this run in Hyp_Instance.v (C11_prefix_table_sound). *)
+Hypothesis table_sound : forall s p re, table_find s gen_prefix_table = Some p -> parses_to s re ->
+  exists rg, re = Concat [BeginText; CharClass rg] /\ (forall c, in_ranges rg c = pred_fn p c) /\ pred_fn p rune_error = false.
 
 (* fast paths never change the answer: whenever compileOptimized returns a matcher for the syntax tree of the pattern,
    Match and MatchString accept an input (ANY byte string, valid UTF-8 or not) iff an unanchored regexp search of
@@ -26,7 +26,7 @@ Theorem C11_fast_path_equiv :
   forall b, bytes_ok b ->
     (gen_match_bytes pred_fn mt b = true <-> search fold_rel re (decode b)) /\
     (gen_match_string pred_fn mt b = true <-> search fold_rel re (decode b)).
-Proof. exact (gen_fast_path_equiv fold_rel pred_fn parses_to parse_upper parse_lower pred_error). Qed.
+Proof. exact (gen_fast_path_equiv fold_rel pred_fn parses_to table_sound). Qed.
 
 (* ... equivalently: they compute the same boolean as the reference matcher of the relation (executable on both sides) *)
 Theorem C11_fast_path_is_reference_matcher :
@@ -34,7 +34,7 @@ Theorem C11_fast_path_is_reference_matcher :
   forall b, bytes_ok b ->
     gen_match_bytes pred_fn mt b = searchb fold_rel re (decode b) /\
     gen_match_string pred_fn mt b = searchb fold_rel re (decode b).
-Proof. exact (gen_fast_path_is_searchb fold_rel pred_fn parses_to parse_upper parse_lower pred_error). Qed.
+Proof. exact (gen_fast_path_is_searchb fold_rel pred_fn parses_to table_sound). Qed.
 End C11.
 Print Assumptions C11_fast_path_equiv.
 Print Assumptions C11_fast_path_is_reference_matcher.
@@ -47,7 +47,7 @@ Proof. exact searchb_correct. Qed.
 Print Assumptions C11_relation_is_executable.
 
 (* the selection is total (re.Sub[i] is never out of range) and equals the specified selection *)
-Theorem C11_selection_is_spec : forall s re, gen_compileOptimized s re = Ok (spec_select s re).
+Theorem C11_selection_is_spec : forall s re, gen_compileOptimized s re = Ok (spec_select gen_prefix_table s re).
 Proof. exact gen_select_is_spec. Qed.
 Print Assumptions C11_selection_is_spec.
 
@@ -102,21 +102,28 @@ Example c11_paths :
   gen_compileOptimized [] (Concat [Star AnyChar; Literal false [102]; Star AnyCharNotNL]) = Ok None.
 Proof. repeat split; vm_compute; reflexivity. Qed.
 
+(* the hypothesis on the table is satisfiable for the table of the current source, whatever entries it has: a toy unicode
+   (three classes) and the parses that go with it *)
 Example c11_hypotheses_satisfiable :
-  let pred_fn := fun p c => match p with PredIsUpper => in_ranges [(65, 90)] c | PredIsLower => in_ranges [(97, 122)] c end in
-  let parses_to := fun s re => (s = pat_upper /\ re = Concat [BeginText; CharClass [(65, 90)]]) \/
-                               (s = pat_lower /\ re = Concat [BeginText; CharClass [(97, 122)]]) in
-  (forall re, parses_to pat_upper re -> exists rg, re = Concat [BeginText; CharClass rg] /\ forall c, in_ranges rg c = pred_fn PredIsUpper c) /\
-  (forall re, parses_to pat_lower re -> exists rg, re = Concat [BeginText; CharClass rg] /\ forall c, in_ranges rg c = pred_fn PredIsLower c) /\
-  (forall p, pred_fn p rune_error = false) /\
-  parses_to pat_upper (Concat [BeginText; CharClass [(65, 90)]]) /\
+  let pred_rg := fun p => match p with PredIsUpper => [(65, 90)] | PredIsLower => [(97, 122)] | _ => [(48, 57)] end in
+  let pred_fn := fun p c => in_ranges (pred_rg p) c in
+  let parses := map (fun e : bytes * pred_id => (fst e, Concat [BeginText; CharClass (pred_rg (snd e))])) gen_prefix_table in
+  (forall s p re, table_find s gen_prefix_table = Some p -> agrees_with parses s re ->
+     exists rg, re = Concat [BeginText; CharClass rg] /\ (forall c, in_ranges rg c = pred_fn p c) /\ pred_fn p rune_error = false) /\
   gen_match_bytes pred_fn (MPrefixPred PredIsUpper) [70; 111] = true /\
+  gen_match_bytes pred_fn (MPrefixPred PredIsUpper) [] = false /\
   gen_match_bytes pred_fn (MContains [102;111;111]) [255; 102;111;111] = true /\
   gen_match_string pred_fn (MSuffix [102;111;111]) [102;111;111; 10] = false.
 Proof.
-  cbv zeta. repeat split.
-  - intros re [[_ ->]|[H _]]; [eexists; split; reflexivity|discriminate H].
-  - intros re [[H _]|[_ ->]]; [discriminate H|eexists; split; reflexivity].
-  - intros []; reflexivity.
-  - left; split; reflexivity.
+  cbv zeta. split; [|repeat split].
+  apply table_check_sound. vm_compute. reflexivity.
 Qed.
+
+(* the decision procedure behind C11_prefix_table_sound is not vacuous: a table entry whose predicate is not the class of
+   its pattern string is refused (`^\d` is [0-9]; a predicate that also accepts U+0660..U+0669 is another set) *)
+Example c11_wrong_entry_refused :
+  entry_ok (fun _ => [(48, 57); (1632, 1641)]) [([94; 92; 100], Concat [BeginText; CharClass [(48, 57)]])] ([94; 92; 100], PredIsDigit) = false /\
+  entry_ok (fun _ => [(48, 57)]) [([94; 92; 100], Concat [BeginText; CharClass [(48, 57)]])] ([94; 92; 100], PredIsDigit) = true /\
+  (* a class that contains U+FFFD is refused as well: the matcher would accept the empty input *)
+  entry_ok (fun _ => [(0, 1114111)]) [([94; 46], Concat [BeginText; CharClass [(0, 1114111)]])] ([94; 46], PredIsPrint) = false.
+Proof. repeat split; vm_compute; reflexivity. Qed.
